@@ -23,12 +23,14 @@ IMPORT_LINES = {"time": '"time"', "netip": '"net/netip"', "template": '"text/tem
 PRELUDE = "type Local1 struct{ X int }\ntype Local2 string\ntype Box[T any] struct{ V T }\ntype Pair[K comparable, V any] struct {\n\tK K\n\tV V\n}\n"
 
 
-def snippet(rnd, nvars):
+def snippet(rnd, nvars, no_iface=False):
     types = []
     tries = 0
-    while len(types) < nvars and tries < 200:
+    while len(types) < nvars and tries < 400:
         tries += 1
         t = stage_n.gen_type(rnd, rnd.choice([0, 1, 2, 2, 3, 3]))
+        if no_iface and re.search(r"interface\{ *[A-Za-z]", t):
+            continue          # migrate spells a non-empty anonymous interface as `any`: recorded finding KF-C14-17
         if t not in types:
             types.append(t)
     body = PRELUDE + "".join("var V%03d %s\n" % (i, t) for i, t in enumerate(types))
@@ -70,9 +72,9 @@ def coq_fields(fs, named):
     out = []
     for names, tag, e in fs:
         if named:
-            if len(names) != 1:
+            if len(names) > 1:
                 raise ValueError("field list outside the model: %r" % (names,))
-            out.append("(%s, %s)" % (cstr(names[0]), coq_ex(e)))
+            out.append("(%s, %s)" % (cstr(names[0] if names else ""), coq_ex(e)))
         else:
             if len(names) > 1:
                 raise ValueError("field list outside the model: %r" % (names,))
@@ -107,17 +109,18 @@ def coq_ex(e):
     raise ValueError("expression outside the model: %r" % (e,))
 
 
-def stage(seed, tier):
-    """Returns dict(n, mismatches=[(source type, code, observed)], errors=[...], coq_ok, log, kinds)"""
-    key = "T-%s-%s-%s" % (vlib.repo_hash() + vlib.tools_hash(), seed, tier)
+def stage(seed, tier, which="kessoku"):
+    """which: "kessoku" (createASTTypeExpr: spelling and denotation compared) | "migrate" (TypeConverter.TypeToExpr: denotation only).
+    Returns dict(n, mismatches=[(source type, code, observed)], errors=[...], coq_ok, log, kinds)"""
+    key = "T%s-%s-%s-%s" % ("" if which == "kessoku" else "m", vlib.repo_hash() + vlib.tools_hash(), seed, tier)
     cpath = os.path.join(vlib.CACHE, "stage", key + ".json")
     if os.path.exists(cpath) and not os.environ.get("VERIF_NOCACHE"):
         return json.load(open(cpath))
-    rnd = random.Random(seed * 7919 + 11)
+    rnd = random.Random(seed * 7919 + (11 if which == "kessoku" else 13))
     drv = build_driver()
     nsn, nv = (12, 25) if tier == "quick" else (60, 40)
-    snippets = [snippet(rnd, nv) for _ in range(nsn)]
-    rc, out, err = vlib.run([drv], input=json.dumps([s for s, _ in snippets]), timeout=900)
+    snippets = [snippet(rnd, nv, no_iface=(which == "migrate")) for _ in range(nsn)]
+    rc, out, err = vlib.run([drv] + (["migrate"] if which == "migrate" else []), input=json.dumps([s for s, _ in snippets]), timeout=900)
     if rc != 0:
         raise RuntimeError("type-render driver failed: " + err[-800:])
     res = json.loads(out)
@@ -149,7 +152,7 @@ def stage(seed, tier):
         with open(path, "w") as f:
             f.write("From Coq Require Import List String NArith. Import ListNotations. Open Scope string_scope.\nRequire Import TypeRender.\n")
             f.write("Definition cases : list (nat * (string * list (string * string) * ty * ex)) := [\n" + ";\n".join(cases[sh:sh + 150]) + "].\n")
-            f.write("Definition M := Eval vm_compute in render_mismatches cases.\nPrint M.\n")
+            f.write("Definition M := Eval vm_compute in %s cases.\nPrint M.\n" % ("render_mismatches" if which == "kessoku" else "denote_mismatches"))
         rc, o = vlib.coqc_file(path, timeout=900)
         m = re.search(r"M\s*=\s*\[(.*?)\]\s*:\s*list \(nat \* nat\)", o, re.S)
         if rc != 0 or not m:
@@ -165,7 +168,7 @@ def stage(seed, tier):
 
 
 if __name__ == "__main__":
-    r = stage(int(os.environ.get("VERIF_SEED", "1")), sys.argv[1] if len(sys.argv) > 1 else "quick")
+    r = stage(int(os.environ.get("VERIF_SEED", "1")), sys.argv[1] if len(sys.argv) > 1 else "quick", sys.argv[2] if len(sys.argv) > 2 else "kessoku")
     print("cases", r["n"], "kinds", r["kinds"], "coq_ok", r["coq_ok"], r["log"][-500:])
     for m in r["mismatches"][:10]:
         print("MISMATCH", m)
